@@ -373,6 +373,87 @@ def parent_cases(ops, sp, cls):
 # ----------------------------------------------------------------------------------------------
 # engine interface
 # ----------------------------------------------------------------------------------------------
+# ----------------------------------------------------------------------------------------------
+# SplineMethod: model features it cannot represent (time-varying or nonlinear dynamics)
+# ----------------------------------------------------------------------------------------------
+def spline_available():
+    try:
+        import networkx  # noqa: F401  (SplineMethod imports it when it transcribes)
+        return True
+    except Exception:
+        return False
+
+
+def spline_base(base_seed):
+    """a seeded OCP SplineMethod can represent: 1-2 chains of integrators, each driven by its own control.
+    Own PRNG stream, so the main matrix of the unit does not depend on whether this section runs."""
+    r = random.Random(base_seed * 7919 + 13)
+    T = round(r.uniform(0.5, 3.0), 2)
+    ops = [{"op": "new_ocp", "T": ["num", T], "t0": ["num", r.choice([0.0, round(r.uniform(-1, 1), 2)])]}]
+    chains = []
+    for c in range(r.choice([1, 1, 2])):
+        L = r.randint(1, 3 if c == 0 else 1)
+        xs = ["x%d_%d" % (c + 1, i + 1) for i in range(L)]
+        u = "u%d" % (c + 1)
+        chains.append((xs, u))
+    for xs, u in chains:
+        for x in xs:
+            ops.append({"op": "sym", "name": x, "kind": "state", "rows": 1, "scale": 1})
+    for xs, u in chains:
+        ops.append({"op": "sym", "name": u, "kind": "control", "rows": 1, "scale": 1})
+    ders = []
+    for xs, u in chains:
+        for i, x in enumerate(xs):
+            rhs = ["s", xs[i + 1]] if i + 1 < len(xs) else ["s", u]
+            ders.append(len(ops))
+            ops.append({"op": "set_der", "state": x, "expr": rhs, "scale": 1})
+    for xs, u in chains:
+        ops.append({"op": "subject_to", "expr": ["==", ["at_t0", ["s", xs[0]]], ["c", round(r.uniform(-1, 1), 2)]], "scale": 1})
+        ops.append({"op": "subject_to", "expr": ["box", ["c", -round(r.uniform(2, 6), 1)], ["s", u], ["c", round(r.uniform(2, 6), 1)]], "scale": 1})
+        ops.append({"op": "add_objective", "expr": ["int", ["sq", ["s", u]]]})
+        ops.append({"op": "add_objective", "expr": ["sq", ["-", ["at_tf", ["s", xs[0]]], ["c", round(r.uniform(-1, 1), 2)]]]})
+    N = r.randint(2, 4)
+    ops.append({"op": "method", "m": {"cls": "SplineMethod", "N": N}})
+    ops.append({"op": "solver", "name": "ipopt", "opts": {"ipopt.print_level": 0, "print_time": False}, "reuse": False})
+    names = [x for xs, u in chains for x in xs] + [u for xs, u in chains]
+    return ops, ders, names, N, r
+
+
+def spline_cases(base_seed):
+    """-> (control steps, [(key, steps)]): every state's derivative is made nonlinear / time-varying in turn;
+    timing: declared so from the start under SplineMethod, or solved first with MultipleShooting (for which the model is
+    fine) and SplineMethod declared afterwards."""
+    ops, ders, names, N, r = spline_base(base_seed)
+    cases = []
+    other = lambda x: r.choice([n for n in names if n != x] or names)
+    for pos, j in enumerate(ders):
+        x = ops[j]["state"]
+        rhs = ops[j]["expr"]
+        c = round(r.uniform(0.2, 1.5), 2)
+        forms = [
+            ("spline_nonlinear", "square", ["+", rhs, ["*", ["c", c], ["sq", ["s", other(x)]]]]),
+            ("spline_nonlinear", "bilinear", ["*", rhs, ["s", other(rhs[1])]]),
+            ("spline_nonlinear", "sin", ["sin", rhs]),
+            ("spline_time_varying", "plus-t", ["+", rhs, ["*", ["c", c], ["t"]]]),
+            ("spline_time_varying", "times-t", ["*", rhs, ["+", ["c", 1.0], ["t"]]]),
+            ("spline_time_varying", "sin-t", ["+", rhs, ["sin", ["t"]]]),
+        ]
+        for kind, form, expr in forms:
+            label = "state#%d/%d:%s" % (pos + 1, len(ders), form)
+            for trig_name, trig in sorted(TRIGGERS.items()):
+                bad = [dict(op) for op in ops]
+                bad[j] = dict(F(dict(bad[j], expr=expr)), fault_kind=kind)
+                cases.append(((kind, label, "SplineMethod", "from-start", trig_name), bad + jcopy(trig)))
+                ms = [dict(op) for op in ops]
+                ms[j] = dict(ms[j], expr=expr)
+                mi = [i for i, op in enumerate(ms) if op["op"] == "method"][0]
+                spl = ms[mi]
+                ms[mi] = {"op": "method", "m": {"cls": "MultipleShooting", "N": N, "M": 1, "intg": "rk"}}
+                cases.append(((kind, label, "SplineMethod", "after-solve-with-MultipleShooting", trig_name),
+                              ms + [{"op": "trigger", "what": "solve"}, dict(F(spl), fault_kind=kind)] + jcopy(trig)))
+    return ops + jcopy(TRIGGERS["solve"]), cases
+
+
 def run_seed(seed):
     """one unit of work = (base OCP seed // 3, method seed % 3); the matrix for it is enumerated completely"""
     base_seed, mi, sub = seed // 6, seed % 3, (seed // 3) % 2 == 1
@@ -439,6 +520,43 @@ def run_seed(seed):
                 sample = {"key": list(key), "steps": steps, "outcome": out}
         if result["verdict"] != "ok":
             break
+    # SplineMethod section (top-level units of the first method, i.e. every sixth unit; needs networkx, which setup.sh
+    # installs from the offline wheelhouse).  Not as a sub-stage: on the unchanged tree a stage transcribed by
+    # SplineMethod inside a parent fails in the *control* run ('SplineMethod' object has no attribute 'opti').
+    if mi == 0 and not sub and result["verdict"] == "ok":
+        if not spline_available():
+            counts["spline_skipped_networkx_missing"] = 1
+        else:
+            sctrl, scases = spline_cases(base_seed)
+            ctrl = execute_case(place(sctrl), probe_seed)
+            log.append(["SplineMethod", "control", ctrl["outcome"]])
+            if ctrl["outcome"] != "control-ok":
+                counts["spline_control_failed"] = counts.get("spline_control_failed", 0) + 1
+                result["config"]["spline_detail"] = str(ctrl.get("detail"))[:200]
+            else:
+                counts["spline_control_ok"] = 1
+                for key, steps in scases:
+                    steps = place(steps)
+                    key = key[:2] + (key[2] + (("/sub-stage+parent-method" if parent_method else "/sub-stage") if sub else ""),) + key[3:]
+                    counts["cases"] += 1
+                    try:
+                        out = execute_case(steps, probe_seed)
+                    except CaseViolation as v:
+                        result["verdict"] = "violation"
+                        result["violation"] = {"class": v.cls + ":" + key[0], "detail": "%s [fault %s at %s, method %s, timing %s, trigger %s]" % ((v.detail,) + key), "step": None}
+                        result["steps"] = steps
+                        result["nsteps"] = len(steps)
+                        log.append([list(key), "VIOLATION"])
+                        break
+                    log.append([list(key), out["outcome"], out.get("at")])
+                    if out["outcome"] == "generator-error":
+                        counts["generator_error"] += 1
+                        counts["spline_generator_error"] = counts.get("spline_generator_error", 0) + 1
+                        result["config"]["spline_detail"] = str(out.get("detail"))[:200]
+                        continue
+                    keys.add("|".join(key))
+                    by_fault[key[0]] = by_fault.get(key[0], 0) + 1
+                    counts["rejected_at_declaration" if out.get("at") == "declaration" else "rejected_at_trigger"] += 1
     result["log_digest"] = hashlib.sha256(json.dumps(log, sort_keys=True).encode()).hexdigest()[:16]
     result["stats"] = {"faults": by_fault, "probes": counts, "ops": {}, "checks": counts["cases"], "checks_equal": counts["cases"], "bit_equal": 0,
                        "rejected_loudly": 0, "transitions": [], "handoffs": 0}
